@@ -26,6 +26,7 @@ RULE = ('Seeded random cases. Family "get": a dataset of 2-40 clients (hostile i
         'shuffled_clients(buffer 1..n+2, seed) started at 0 for 9-10 rounds, then restarted at every r in 0..6 on a '
         'same/re-opened dataset. Non-trivial: at least one (seed,cohort,round) was observed twice (get) / at least one '
         'restart with r>=1 compared (stream); distinct by (ids, kind, configuration, request program).')
+RULE += (' Wave-4 addition: the first 12 (quick) / 40 (thorough) histories per family and shard are replayed in a fresh interpreter under another PYTHONHASHSEED; ids and keys of every judged (seed, round) must agree.')
 ASSUMPTIONS = [
     'round numbers 0..10^6, seeds 0..2^32-1 (numpy RandomState domain), cohort 1..number of clients of the view',
     'the order of client_ids() may differ between implementations, so histories are kept per dataset kind; a re-opened '
